@@ -183,7 +183,7 @@ def new_agent(mtu=None, rx_action='forward'):
     return ag, sent, finished
 
 
-def mk_bundle(crcs, dest='dtn://d/x', flags=0, plen=40, ext=True, report_to='dtn://r/'):
+def mk_bundle(crcs, dest='dtn://d/x', flags=0, plen=40, ext=True, report_to='dtn://r/', seq=7):
     '''crcs = (primary, extension blocks, payload) CRC types'''
     cp, ce, cl = crcs
     blocks = []
@@ -194,7 +194,7 @@ def mk_bundle(crcs, dest='dtn://d/x', flags=0, plen=40, ext=True, report_to='dtn
         blocks.append(CanonicalBlock(type_code=192, block_num=5, crc_type=ce, btsd=b'\x01\x02\x03'))
     blocks.append(CanonicalBlock(type_code=1, block_num=1, crc_type=cl, btsd=bytes((i * 7 + 3) % 251 for i in range(plen))))
     b = Bundle(primary=PrimaryBlock(bundle_flags=flags, destination=dest, source='dtn://s/', report_to=report_to,
-                                    crc_type=cp, create_ts=Timestamp(dtntime=0, seqno=7), lifetime=10 ** 9), blocks=blocks)
+                                    crc_type=cp, create_ts=Timestamp(dtntime=0, seqno=seq), lifetime=10 ** 9), blocks=blocks)
     b.fill_fields()
     b.update_all_crc()
     return bytes(b)
@@ -301,6 +301,32 @@ def check_inputs(fails, stats, tier):
                         m[s + k // 8] ^= 0x80 >> (k % 8)
                     check_one_corruption(raw, bytes(m), {'bundle': name, 'burst': [s, start, ln]}, fails, stats)
 
+    # the CRC item itself is the one item the CRC does not cover: its head retyped from byte string to text string (one
+    # bit) or to an array (two bits), for bundles whose CRC octets make the retyped item decodable (valid UTF-8 / every
+    # octet below 24, where scapy_cbor's BstrField gives back the same octets)
+    for seq in range(100, 100 + (400 if tier == 'thorough' else 120)):
+        for name, crcs in (('crc16/seq%d' % seq, (1, 1, 1)), ('crc32/seq%d' % seq, (2, 2, 2))):
+            raw = mk_bundle(crcs, flags=REPORTS, plen=12, seq=seq)
+            for bi, (s_, e_, items) in enumerate(blocks_of(raw)):
+                cs, ce = items[-1]
+                major, n, q = head(raw, cs)
+                if major != 2 or n not in (2, 4):
+                    continue
+                octets = raw[q:ce]
+                kinds = []
+                try:
+                    octets.decode('utf8')
+                    kinds.append(('text', 0x20))
+                except UnicodeDecodeError:
+                    pass
+                if all(o < 0x18 for o in octets):
+                    kinds.append(('array', 0xC0))
+                for kind, mask in kinds:
+                    m = bytearray(raw)
+                    m[cs] ^= mask
+                    stats['crc_item_retyped'] = stats.get('crc_item_retyped', 0) + 1
+                    check_one_corruption(raw, bytes(m), {'bundle': name, 'block': bi, 'crc_item_as': kind}, fails, stats)
+
 
 def main(argv):
     tier = 'quick'
@@ -324,7 +350,10 @@ def main(argv):
            'bound': 'outputs: 6 CRC-type assignments x MTU none/120 x report flags off/all x forward / deliver / originate '
                     '(%d transmitted bundles checked); inputs: 2 bundles (3 when thorough), every single-bit flip and bursts of '
                     '3 / 8 / CRC-width bits (2..width at every position when thorough) inside CRC-protected blocks; '
-                    '%d corruptions did not even decode' % (stats.get('outputs', 0), stats.get('undecodable', 0)),
+                    '%d bundles whose CRC item was retyped to a text string / an array of small integers that decodes to the '
+                    'same octets (searched over 120 creation sequence numbers, 400 when thorough); '
+                    '%d corruptions did not even decode' % (stats.get('outputs', 0), stats.get('crc_item_retyped', 0),
+                                                            stats.get('undecodable', 0)),
            'evaluations': stats['evaluations'], 'distinct_nontrivial': stats['evaluations'],
            'rule': 'one case = one agent run (one scenario, or one corrupted copy fed to a fresh agent)',
            'samples': [], 'failures': fails[:60], 'failure_count': len(fails), 'exhaustive': False}
